@@ -10,6 +10,7 @@ first and `deleted` only as its `elif`) makes `C15_gen_file_methods` false — w
 refactor that keeps the function keeps the obligation.
 -/
 import PrimaiteModel.Model.FileSystemHealth
+import PrimaiteModel.Lemmas.FileSystemOps
 import PrimaiteModel.Gen.FileSystemMethods
 import PrimaiteModel.Gen.FileSystem
 namespace Primaite.FileSystem
@@ -105,8 +106,21 @@ theorem C15_gen_folder_methods (r : FolderRec) :
   obtain ⟨g, h, v⟩ := r
   refine ⟨?_, ?_, ?_, ?_, ?_, ?_⟩
   · simp only [Folder.verb, Folder.restore, folderRestore]
-    by_cases hd : g.deleted = true <;> by_cases hc : g.restoreCountdown ≤ 0 <;> simp [hd, hc]
-    all_goals (cases g; simp_all)
+    -- every comparison of the countdown with 0 the source may use, decided in both cases
+    by_cases hd : g.deleted = true <;> rcases Int.lt_or_le 0 g.restoreCountdown with hp | hle
+    · have h1 : ¬ g.restoreCountdown ≤ 0 := by omega
+      have h2 : g.restoreCountdown > 0 := hp
+      have h3 : g.restoreCountdown ≠ 0 := by omega
+      simp [hd, hp, h1, h2, h3] <;> (cases g; simp_all)
+    · have h1 : ¬ (0 < g.restoreCountdown) := by omega
+      have h2 : ¬ g.restoreCountdown > 0 := h1
+      simp [hd, hle, h1, h2] <;> (cases g; simp_all)
+    · have h1 : ¬ g.restoreCountdown ≤ 0 := by omega
+      have h2 : g.restoreCountdown > 0 := hp
+      simp [hd, hp, h1, h2] <;> (cases g; simp_all)
+    · have h1 : ¬ (0 < g.restoreCountdown) := by omega
+      have h2 : ¬ g.restoreCountdown > 0 := h1
+      simp [hd, hle, h1, h2] <;> (cases g; simp_all)
   · simp [Folder.verb, folderCheckHash]
   · simp only [folderDelete]
     by_cases hd : g.deleted = true
@@ -115,7 +129,19 @@ theorem C15_gen_folder_methods (r : FolderRec) :
   · simp only [folderDelete]
     by_cases hd : g.deleted = true <;> simp [hd]
   · simp only [folderRestore]
-    by_cases hd : g.deleted = true <;> by_cases hc : g.restoreCountdown ≤ 0 <;> simp [hd, hc]
+    by_cases hd : g.deleted = true <;> rcases Int.lt_or_le 0 g.restoreCountdown with hp | hle
+    · have h1 : ¬ g.restoreCountdown ≤ 0 := by omega
+      have h2 : g.restoreCountdown > 0 := hp
+      simp [hd, hp, h1, h2]
+    · have h1 : ¬ (0 < g.restoreCountdown) := by omega
+      have h2 : ¬ g.restoreCountdown > 0 := h1
+      simp [hd, hle, h1, h2]
+    · have h1 : ¬ g.restoreCountdown ≤ 0 := by omega
+      have h2 : g.restoreCountdown > 0 := hp
+      simp [hd, hp, h1, h2]
+    · have h1 : ¬ (0 < g.restoreCountdown) := by omega
+      have h2 : ¬ g.restoreCountdown > 0 := h1
+      simp [hd, hle, h1, h2]
   · simp only [folderDelete]
     by_cases hd : g.deleted = true <;> simp [hd]
 
@@ -235,6 +261,101 @@ theorem C15_gen_fs_delete_restore_file (s : State) (F x : Name) :
     · cases g.getFile x true with
       | none => simp
       | some f => cases (g.restoreFile x).2 <;> simp [ofBool]
+
+/-! ### folder level: delete / restore against a running restore countdown (round 6; the class of seeded C15-e) -/
+
+/-- `FileSystem.restore_folder` and `FileSystem.delete_folder` as translated from the source — `folder.restore()` / `folder.delete()`
+inside them being the TRANSLATED `Folder.restore` / `Folder.delete` — are the model's `restoreFolder` / `deleteFolder`, state and
+answer, for every state and name (hence for every countdown value and every health of the folder concerned). -/
+theorem C15_gen_restore_delete_folder (s : State) (F : Name) :
+    (fsRestoreFolder s F).1 = (restoreFolder s F).1 ∧ ((fsRestoreFolder s F).2 = true ↔ (restoreFolder s F).2 = .success) ∧
+    (fsDeleteFolder s F).1 = (deleteFolder s F).1 ∧ ((fsDeleteFolder s F).2 = true ↔ (deleteFolder s F).2 = .success) := by
+  have hr : ∀ g : Folder, (folderRestore { g := g }).1.g = g.restore := by
+    intro g
+    have := (C15_gen_folder_methods { g := g }).1
+    simp only [Folder.verb, Option.some.injEq, Prod.mk.injEq] at this
+    exact this.1.symm
+  have hd : ∀ g : Folder, (folderDelete { g := g }).1.g = { g with deleted := true } := fun g => (C15_gen_folder_methods { g := g }).2.2.1
+  refine ⟨?_, ?_, ?_, ?_⟩
+  · unfold fsRestoreFolder restoreFolder
+    cases getFolder s F true with
+    | none => rfl
+    | some g => simp only [hr]; simp [Folder.restore]
+  · unfold fsRestoreFolder restoreFolder
+    cases getFolder s F true <;> simp
+  · unfold fsDeleteFolder deleteFolder
+    by_cases hroot : F = "root"
+    · subst hroot; cases getFolder s "root" <;> simp
+    · cases getFolder s F with
+      | none => simp [hroot]
+      | some g => simp only [hd]; simp [hroot, Folder.removeAllFiles]
+  · unfold fsDeleteFolder deleteFolder
+    by_cases hroot : F = "root"
+    · subst hroot; cases getFolder s "root" <;> simp
+    · cases getFolder s F <;> simp [hroot]
+
+/-- **`Folder.restore()` clears the flag whatever the countdown does**: running (`> 0`, then it is left alone — not restarted),
+expired or never started (then it is set to `max(restore_duration, 1)`), and whatever the folder's health. -/
+theorem C15_folder_restore_for_every_countdown (r : FolderRec) :
+    (folderRestore r).1.g.deleted = false ∧ (folderRestore r).2 = true ∧
+    (folderRestore r).1.g.restoreCountdown = (if r.g.restoreCountdown ≤ 0 then max r.g.restoreDuration 1 else r.g.restoreCountdown) ∧
+    (folderRestore r).1.g.files = r.g.files ∧ (folderRestore r).1.g.deletedFiles = r.g.deletedFiles := by
+  have := (C15_gen_folder_methods r).1
+  simp only [Folder.verb, Option.some.injEq, Prod.mk.injEq] at this
+  rw [← this.1, ← this.2]
+  simp [Folder.restore]
+
+/-- **The folder `restore_folder` puts into the live set is not flagged deleted — for every interleaving with a restore that is still
+counting down**: whatever the restore countdown of the (live or deleted) folder found under that name is — frozen at a positive value
+because the folder was deleted again while restoring, expired, or never started — the translated `FileSystem.restore_folder` stores in
+`folders` a folder of the same uuid with `deleted = false`, and removes that uuid from `deleted_folders`. -/
+theorem C15_restore_folder_flag_agrees {s : State} (hI : Inv s) {F : Name} {g : Folder} (hg : getFolder s F true = some g) :
+    (fsRestoreFolder s F).2 = true ∧
+    (∃ g' ∈ (fsRestoreFolder s F).1.folders, g'.id = g.id ∧ g'.deleted = false ∧
+      g'.restoreCountdown = (if g.restoreCountdown ≤ 0 then max g.restoreDuration 1 else g.restoreCountdown)) ∧
+    (∀ b ∈ (fsRestoreFolder s F).1.deletedFolders, b.id ≠ g.id) ∧ Inv (fsRestoreFolder s F).1 := by
+  have e := C15_gen_restore_delete_folder s F
+  refine ⟨?_, ?_, ?_, ?_⟩
+  · unfold fsRestoreFolder; rw [hg]
+  · rw [e.1]
+    unfold restoreFolder; rw [hg]
+    exact ⟨g.restore, (mem_dictSet Folder.id).mpr (Or.inl rfl), rfl, rfl, rfl⟩
+  · rw [e.1]
+    unfold restoreFolder; rw [hg]
+    intro b hb; exact ((mem_dictPop Folder.id).mp hb).2
+  · rw [e.1]; exact inv_restoreFolder hI F
+
+/-- A deleted folder is not stepped: its restore countdown stands still for as long as it is deleted. -/
+theorem C15_deleted_folder_countdown_frozen (s : State) : (step s .tick).1.deletedFolders = s.deletedFolders := rfl
+
+/-- The scenario of seeded C15-e for the default duration: delete, restore (countdown 3), one tick, delete again (countdown frozen
+at 2), two ticks, restore again — the folder is live, NOT flagged, its countdown still 2 (not restarted); two more ticks complete
+the restore and bring the file back. -/
+example :
+    let s := (run (init none) [.createFile "fa" "a" false, .deleteFolder "fa", .restoreFolder "fa", .tick, .deleteFolder "fa", .tick, .tick,
+      .restoreFolder "fa"]).1
+    let s' := (run s [.tick, .tick]).1
+    (s.folders.map fun g => (g.name, g.deleted, g.restoreCountdown, g.files.length, g.deletedFiles.length)) =
+      [("root", false, -1, 0, 0), ("fa", false, 2, 0, 1)] ∧ s.deletedFolders = [] ∧
+    (s'.folders.map fun g => (g.name, g.deleted, g.restoreCountdown, g.files.length, g.deletedFiles.length)) =
+      [("root", false, -1, 0, 0), ("fa", false, 0, 1, 0)] := by
+  decide
+
+/-- Why the order inside `Folder.restore` matters (seeded C15-e in miniature): with the "already in progress" check first, a folder
+that is deleted while its countdown runs keeps its flag — and `restore_folder` moves it to the live set regardless. -/
+def folderRestoreGuardFirst (r : FolderRec) : FolderRec × Bool :=
+  if decide (r.g.restoreCountdown > 0) then (r, true)
+  else ({ r with g := { r.g with deleted := false, restoreCountdown := max r.g.restoreDuration 1 }, health := .restoring }, true)
+
+theorem C15_guard_first_restore_counterexample :
+    ∃ r : FolderRec, (folderRestoreGuardFirst r).1.g.deleted = true ∧ (folderRestore r).1.g.deleted = false ∧
+      ∀ r' : FolderRec, r'.g.restoreCountdown ≤ 0 → (folderRestoreGuardFirst r').1.g = (folderRestore r').1.g :=
+  ⟨{ g := { id := 1, name := "fa", deleted := true, restoreCountdown := 2 } }, by decide, by decide, by
+    intro r' hc
+    obtain ⟨g, h, v⟩ := r'
+    have h1 : ¬ (0 < g.restoreCountdown) := by simp only at hc; omega
+    have h2 : ¬ (g.restoreCountdown > 0) := h1
+    by_cases hd : g.deleted = true <;> simp [folderRestoreGuardFirst, folderRestore, hd, hc, h1, h2]⟩
 
 /-! ### translator tie: the enum and the complete list of places where the four classes look at health -/
 
